@@ -16,7 +16,7 @@ def handle : Handler := fun cmd args =>
   | "c06bt", [h] => some do
       let b ← hexArg h
       let (rs, tail) := runsOf b 0 0 []
-      pure s!"{btSteps rs tail} {rs.length} {totalLen rs + tail}"
+      pure s!"{btStepsPos rs tail} {btSteps rs tail} {totalLen rs + tail}"
   | "c06cd", [n, p] => some do
       match n.toNat?, p.toNat? with
       | some n, some p => pure (toString (cdSteps (List.replicate n p)))
